@@ -109,7 +109,8 @@ Inductive iop :=
   | IEval (n a : name) (copyall : bool)       (* n = a * 2, n a fresh name *)
   | IMask
   | IStack (ont : nat) (orows : list (Z * Z)) (* stack(other, 'TSTEP'): the operand's TSTEP length and TFLAG rows *)
-  | IInterp (m : nat).                        (* interpSigma to m layers (m+1 levels) *)
+  | IInterp (m : nat)                         (* interpSigma to m layers (m+1 levels) *)
+  | IDelete (k : name).                       (* g = f.copy(); del g.variables[k]; g.updatemeta() *)
 
 Definition dim_len (f : io) (d : dimk) : option nat :=
   match d with DT => Some (nt f) | DL => Some (nl f) | DR => nr f | DC => nc f end.
@@ -171,13 +172,15 @@ Definition impl_subset (f : io) (ks : list name) : res io :=
 Fixpoint dedup (l : list name) : list name :=
   match l with [] => [] | x :: t => x :: filter (fun y => negb (Nat.eqb y x)) (dedup t) end.
 Definition impl_rename (f : io) (o n : name) : res io :=
-  if negb (memb o (dvars f)) || memb n (dvars f) || memb n (varlist f) then Raise else    (* KeyError / not modelled *)
+  (* KeyError for a missing variable; renaming a variable onto itself (the variable disappears) is not modelled.
+     The target may be an EXISTING variable: it is overwritten in place and one VAR-LIST entry disappears. *)
+  if negb (memb o (dvars f)) || Nat.eqb o n then Raise else
   match tflag f with
   | None => Raise
   | Some (s1, rows) =>
       if negb (Nat.eqb s1 (vardim f)) then Raise else                    (* TFLAG is re-allocated from the VAR dimension *)
       let f1 := add2varlist f (dvars f) in
-      let f2 := add2varlist (set_dvars f1 (dvars f1 ++ [n])) [n] in
+      let f2 := add2varlist (set_dvars f1 (if memb n (dvars f1) then dvars f1 else dvars f1 ++ [n])) [n] in
       let f3 := set_dvars f2 (filter (fun k => negb (Nat.eqb k o)) (dvars f2)) in
       let vl := dedup (filter (fun k => memb k (dvars f3))
                               (map (fun k => if Nat.eqb k o then n else k) (varlist f3))) in
@@ -295,6 +298,13 @@ Definition impl_interp (f : io) (m : nat) : res io :=
                      m (a_nr g') (a_nc g') (nvgl g') (sdate g') (stime g') (tstep g'))
   end.
 
+(* deleting a variable from (a copy of) the file and refreshing the metadata: VAR-LIST is pruned, NVARS and the VAR
+   dimension shrink, TFLAG is re-created with the new second axis (keeping its times) *)
+Definition impl_delete (f : io) (k : name) : res io :=
+  if negb (memb k (dvars f)) then Raise else
+  do g <- impl_copy f;
+  updatemeta (set_dvars g (filter (fun v => negb (Nat.eqb v k)) (dvars g))).
+
 Definition istep (f : io) (o : iop) : res io :=
   match o with
   | ICopy => impl_copy f
@@ -306,6 +316,7 @@ Definition istep (f : io) (o : iop) : res io :=
   | IMask => impl_mask f
   | IStack ont orows => impl_stack f ont orows
   | IInterp m => impl_interp f m
+  | IDelete k => impl_delete f k
   end.
 Fixpoint irun (f : io) (ops : list iop) : res io :=
   match ops with [] => Ok f | o :: t => do f' <- istep f o; irun f' t end.
@@ -320,13 +331,14 @@ Definition iop_region (f : io) (o : iop) : nat :=
   | IApply DT g => match g with FHalf => 0 | _ => if Nat.eqb (nt f) 1 then 0 else 1 end
   | ISubset ks => match filter (fun k => memb k ks) (listed_existing f) with [] => 2 | _ => 0 end
   | ISlice sels => if Nat.leb (nlists sels) 1 then 0 else 2     (* zipped selection: no standard variable is left *)
+  | IDelete k => match filter (fun v => negb (Nat.eqb v k)) (listed_existing f) with [] => 2 | _ => 0 end   (* the last listed variable *)
   | IEval _ a false => if memb a (listed_existing f) then 0 else 3
   | IStack _ _ => if forallb (fun k => memb k (varlist f)) (dvars f) then 0 else 3
   | _ => 0
   end.
 (* operations for which preservation of coherence is PROVED (the others: correspondence only) *)
 Definition proved_op (o : iop) : bool :=
-  match o with ICopy | ISubset _ | IRename _ _ | ISlice _ | IApply _ _ | IStack _ _ => true | _ => false end.
+  match o with ICopy | ISubset _ | IRename _ _ | ISlice _ | IApply _ _ | IStack _ _ | IDelete _ => true | _ => false end.
 Fixpoint irun_region (f : io) (ops : list iop) : nat :=
   match ops with
   | [] => 0%nat
